@@ -109,6 +109,7 @@ type interpreter struct {
 	raceID             string
 	protoTab           map[string]iface
 	randCtr            int
+	memDBs             map[string]value
 	shadow             map[interface{}]*shadowCell
 }
 
